@@ -818,7 +818,7 @@ def step_goals(W, cfg, s):
     W.goal("C03/stored", W.And(W.eq(st[0], fi), W.eq(st[1], r), W.eq(st[2], b), W.eq(st[3], L), W.eq(st[4], K)))
 
 
-def regime_goals(W, cfg, logfact, freslim, fi, L, K, fres, bmin, Lmin):
+def regime_goals(W, cfg, logfact, freslim, fi, L, K, fres, bmin, Lmin, half_up=True):
     N, fs, olap = cfg["N"], cfg["fs"], cfg["olap"]
     Ls = fs / (fi * logfact)
     xov = 1 - olap
@@ -827,10 +827,20 @@ def regime_goals(W, cfg, logfact, freslim, fi, L, K, fres, bmin, Lmin):
     W.assume(Ls <= N - HALF); W.assume(Ls >= Lmin + HALF); W.assume(Ls >= 1 + HALF)
     W.assume(K != 1)
     W.goal("C04/|L-L*|<=1/2", W.And(L - Ls <= HALF, Ls - L <= HALF))
-    W.goal("C04/r/f=logfact up to rounding", W.And(fres * (Ls + HALF) >= fi * logfact * Ls, fres * (Ls - HALF) <= fi * logfact * Ls))
-    kb = (1 + (N - (Ls + HALF)) / (xov * (Ls + HALF)) + HALF).floor()
+    # the tie rule of "nearest" is left free by the property: the clause demands the LOWER nearest integer, ceil(y - 1/2); the
+    # round-half-up form floor(y + 1/2) (what ltf_plan computes) is tried first as a stepping stone and dropped if it does not hold
+    y = 1 + (N - (Ls + HALF)) / (xov * (Ls + HALF))
     from symx.shim import s_min
-    W.goal("C04/K>=Kdes-level", K >= s_min(kb, N - L + 1))
+    if half_up:
+        W.lemma("C04/lemma:K>=Kdes-level (round-half-up form)", K >= s_min((y + HALF).floor(), N - L + 1))
+    W.goal("C04/K>=Kdes-level", K >= s_min((y - HALF).ceil(), N - L + 1))
+    # stepping stones for the last clause (each proved first; posed after the clauses above so that they do not burden those queries):
+    # the ideal length times the ideal resolution is fs, the stored resolution times L is fs
+    W.lemma("C04/lemma:|L-L*|<=1/2", W.And(L - Ls <= HALF, Ls - L <= HALF))
+    W.lemma("C04/lemma:f*logfact*L*=fs", W.eq(fi * logfact * Ls, fs))
+    W.lemma("C04/lemma:r*L=fs", W.And(W.eq(fres * L, fs), L >= 1))
+    W.lemma("C04/lemma:r*(L*+-1/2) vs fs", W.And(fres * (Ls + HALF) >= fs, fres * (Ls - HALF) <= fs))
+    W.goal("C04/r/f=logfact up to rounding", W.And(fres * (Ls + HALF) >= fi * logfact * Ls, fres * (Ls - HALF) <= fi * logfact * Ls))
 
 
 def ob_ltf_overlap(W, Kn):
@@ -871,7 +881,7 @@ _GOALS = {
     "seg-generic": ["C02/K=navg=len(D)", "C02/K=1=>L=N", "C02/start-loop-base", "C02/start-loop-invariant", "C02/starts-in-range", "C02/first-start=0",
                     "C02/last-start=N-L", "C02/starts-increasing", "C04/even-spread", "C02/appended=istart", "C02/structure-changed"] + _VC,
 }
-ALIAS = {"C04/K<=N-L+1": "C04/K=nearest(capped)", "C02/plan-K-is-step-K": "C02/K=navg=len(D)", "C02/start-loop-invariant": "C02/starts-in-range",
+ALIAS = {"C04/lemma:K>=Kdes-level (round-half-up form)": None, "C04/lemma:|L-L*|<=1/2": None, "C04/lemma:f*logfact*L*=fs": None, "C04/lemma:r*L=fs": None, "C04/lemma:r*(L*+-1/2) vs fs": None, "C04/K<=N-L+1": "C04/K=nearest(capped)", "C02/plan-K-is-step-K": "C02/K=navg=len(D)", "C02/start-loop-invariant": "C02/starts-in-range",
          "C02/start-loop-base": "C02/first-start=0", "C02/appended=istart": "C02/starts-in-range", "C02/unwinding:for-range": "C02/starts-in-range",
          "C03/stored": "C03/b=f*L/fs", "C04/|L-L*|<=1/2": None, "C04/r/f=logfact up to rounding": None, "C04/K>=Kdes-level": None}
 
@@ -1103,7 +1113,7 @@ def ob_vec(W, part, fork_ifs=False, prior=False):
         r, L, K = env1["final_r"], SR(tz(env1["final_L"])), SR(tz(env1["final_K"]))
         g1 = env0["f_grid"][1]
         # the lookup evaluates the rule at the grid point g1 >= f: log spacing holds relative to g1
-        regime_goals(W, cfg, env0["clog"], env0["ravg"], g1, L, K, r, bmin, Lmin)
+        regime_goals(W, cfg, env0["clog"], env0["ravg"], g1, L, K, r, bmin, Lmin, half_up=False)
         return
     raise ValueError(part)
 
